@@ -273,4 +273,11 @@ def rm_no_process_lifetime_results(ctx: Ctx) -> None:
     state_rule(ctx)
 
 
-RULES = [r1_arguments_in_caller_scope, r2_positional_binding, r3_per_application_scope, r4_only_symbol_not_defined_defers, r5_failures_inside_expansions_surface, r6_enclosing_scopes_stay_reachable, r7_no_capacity_limit_on_scope_log, rb_binding_agreement, rm_no_process_lifetime_results]
+def ru_names_bound(ctx: Ctx) -> None:
+    """a local read but never bound raises NameError for every input that reaches the statement (shared rule, names.py)"""
+    from ..names import names_rule
+
+    names_rule(ctx)
+
+
+RULES = [r1_arguments_in_caller_scope, r2_positional_binding, r3_per_application_scope, r4_only_symbol_not_defined_defers, r5_failures_inside_expansions_surface, r6_enclosing_scopes_stay_reachable, r7_no_capacity_limit_on_scope_log, rb_binding_agreement, rm_no_process_lifetime_results, ru_names_bound]
